@@ -58,6 +58,7 @@ class ItemSession(object):
     def skip(self):
         '''Mark the item as processed without download.'''
         _logger.debug(__(_('Skipping ‘{url}’.'), url=self.url_record.url))
+        self._flush_url_batch()
         self.app_session.factory['URLTable'].check_in(self.url_record.url, Status.skipped)
 
         self._processed = True
@@ -81,6 +82,11 @@ class ItemSession(object):
 
         url_result = URLResult()
         url_result.filename = filename
+
+        # The discovered URLs must be in the table before the final status
+        # is recorded. Otherwise a crash in between leaves a finished item
+        # whose children are never fetched.
+        self._flush_url_batch()
 
         self.app_session.factory['URLTable'].check_in(
             url,
@@ -168,9 +174,12 @@ class ItemSession(object):
 
         return url_record
 
-    def finish(self):
+    def _flush_url_batch(self):
         self.app_session.factory['URLTable'].add_many(self._add_url_batch)
         self._add_url_batch.clear()
+
+    def finish(self):
+        self._flush_url_batch()
 
     def update_record_value(self, **kwargs):
         self.app_session.factory['URLTable'].update_one(self.url_record.url, **kwargs)
